@@ -155,6 +155,10 @@ def proof_obligations(pid):
         res["undischarged"].append("Properties/%s.v missing" % pid)
         return res
     targets = ["Properties/%s.vo" % os.path.basename(v)[:-2] for v in vfiles]
+    # source-table tie (BUILDING.md): Cxx/SrcTab.v is needed by the srctabXX shards only
+    srctab = os.path.join(COQ, pid, "SrcTab.v")
+    if os.path.exists(srctab):
+        targets.append("%s/SrcTab.vo" % pid)
     rc, out, wall = coq_build(targets)
     res["build_wall_s"] = round(wall, 1)
     if rc != 0:
@@ -194,6 +198,8 @@ def proof_obligations(pid):
                 res["undischarged"].append("%s (assumes %s)" % (name, ", ".join(bad)))
             else:
                 res["discharged"] += 1
+    if os.path.exists(srctab):
+        kit_deps(srctab, deps)
     gate = grep_gate(deps)
     res["dep_files"] = len(deps)
     if gate:
@@ -298,7 +304,8 @@ def harness_run(name, pid, tier, seed, outdir, inputs=None, timeout=3600):
             corpus = os.path.join(ROOT, "corpus", pid, name)
         if os.path.isdir(corpus):
             cmd += ["-corpus", corpus]
-    return sh(cmd, cwd=HARNESS, env=GOENV, timeout=timeout)
+    # VERIF_REPO_DIR: the tree the harness was built against (read as TEXT by the srctabXX binaries)
+    return sh(cmd, cwd=HARNESS, env=dict(GOENV, VERIF_REPO_DIR=REPO), timeout=timeout)
 
 
 # ------------------------------------------------------------------------------------------
